@@ -77,6 +77,11 @@ def _obj_snapshot(env, skip):
             continue
         if v.__class__.__name__ in ("SObj", "AbstractObj") and isinstance(getattr(v, "attrs", None), dict):
             snap[name] = (v, dict(v.attrs))
+            # one level down: components held in attributes (self.forecaster_, self.estimator_, ...)
+            for k_, w in v.attrs.items():
+                if w.__class__.__name__ in ("SObj", "AbstractObj") and isinstance(getattr(w, "attrs", None), dict) \
+                        and all(w is not o for (o, _) in snap.values()):
+                    snap[f"{name}.{k_}"] = (w, dict(w.attrs))
     return snap
 
 
